@@ -1,0 +1,38 @@
+//go:build verif
+
+package format
+
+// Contracts for the verification machinery in /verif (comment-only; see /verif/DESIGN.md).
+
+//@ property C16
+
+// Text codec: bytes <-> string without transformation.
+//@ func (*textCodec).HandleRead
+//@   requires ctx != nil && implies(tbStable(message) || (tbOther(message) && impl(message, io.Reader)), rwf(message))
+//@   may_panic true
+//@   ensures one: nemitted() == 2 && evis(0, "utils.MustToBytes") && evarg(0, 0) == message && evis(1, "InboundContext.HandleRead") && evrecv(1) == ctx
+//@   ensures same_bytes: is(evarg(1, 0), string) && at(1, seqeq(content(as(evarg(1, 0), string)), content(evres(0, 0))))
+//@   ensures_panic nothing_delivered: count("InboundContext.HandleRead") == 0 || nemitted() == 2
+//@ func (*textCodec).HandleWrite
+//@   requires ctx != nil
+//@   may_panic true
+//@   ensures one: nemitted() == 1 && evis(0, "OutboundContext.HandleWrite") && evrecv(0) == ctx
+//@   ensures string_as_reader: implies(is(message, string), impl(evarg(0, 0), io.Reader) && !rbad(evarg(0, 0)) && at(0, seqeq(rcontent(evarg(0, 0)), content(as(message, string)))))
+//@   ensures others_unchanged: implies(!is(message, string), evarg(0, 0) == message)
+
+// JSON codec: the glue around encoding/json.
+//@ func (*jsonCodec).HandleRead
+//@   requires ctx != nil && j != nil
+//@   may_panic true
+//@   ensures flags: count("(*encoding/json.Decoder).UseNumber") == ite(old(j.useNumber), 1, 0) && count("(*encoding/json.Decoder).DisallowUnknownFields") == ite(old(j.disAllowUnknownFields), 1, 0)
+//@   ensures order: evis(0, "utils.MustToReader") && evarg(0, 0) == message && evis(1, "encoding/json.NewDecoder") && evarg(1, 0) == evres(0, 0)
+//@   ensures decoded_delivered: evis(nemitted()-2, "(*encoding/json.Decoder).Decode") && evarg(nemitted()-2, 0) == evres(1, 0) && evis(nemitted()-1, "InboundContext.HandleRead") && evrecv(nemitted()-1) == ctx && is(evarg(nemitted()-1, 0), map[string]interface{}) && at(nemitted()-1, as(evarg(nemitted()-1, 0), map[string]interface{}) == *as(evarg(nemitted()-2, 1), *map[string]interface{}))
+//@   ensures only_if_decoded: evres(nemitted()-2, 0) == nil
+//@   ensures exactly_once: count("InboundContext.HandleRead") == 1 && count("(*encoding/json.Decoder).Decode") == 1
+//@   ensures_panic rejected: count("InboundContext.HandleRead") == 0 || evis(nemitted()-1, "InboundContext.HandleRead")
+//@ func (*jsonCodec).HandleWrite
+//@   requires ctx != nil
+//@   may_panic true
+//@   ensures only_if_marshalled: evres(0, 1) == nil
+//@   ensures marshalled: nemitted() == 2 && evis(0, "encoding/json.Marshal") && evarg(0, 0) == message && evis(1, "OutboundContext.HandleWrite") && evrecv(1) == ctx && is(evarg(1, 0), []byte) && sameslice(as(evarg(1, 0), []byte), evres(0, 0))
+//@   ensures_panic nothing_written: count("OutboundContext.HandleWrite") == 0 || nemitted() == 2
